@@ -188,3 +188,26 @@ package interceptor
 //@   props C17
 //@   requires blob != nil
 //@   ensures @events_only_when_repaired: !result1 ==> result0 == nil
+
+// ---------------------------------------------------------------------------------------------
+// C13 / C16: the namespace visitor's callback. The reflective walk itself (package visit) is not under contract;
+// what the callback tells it is: it may cut the walk short (Skip) only below values it cannot or must not look
+// into - nil pointers, unexported fields - and below a History whose events it has just visited itself; and it
+// MUST do so for that History (otherwise every event would be translated a second time).
+// ---------------------------------------------------------------------------------------------
+//@ extern pure (reflect.Value).Kind
+//@ extern pure (reflect.Value).IsNil
+//@ extern pure (reflect.Value).Interface
+//@ extern pure getParentFieldType
+//@ extern quiet visitDataBlobs
+//@ extern quiet visit.Assign
+//@ extern quiet reflect.ValueOf
+//@ extern visitNamespace@visitNamespace$1(logger, obj, match)
+//@   assigns *
+//@ contract visitNamespace$1
+//@   props C13 C16
+//@   pure match
+//@   ensures @skip_only_where_handled: result0 == visit.Skip ==>
+//@        (vwp.Value.Kind() == reflect.Ptr && vwp.Value.IsNil()) || res1(getParentFieldType(vwp)) == visit.Skip || typeis(vwp.Value.Interface(), "*history.History")
+//@   ensures @history_not_walked_twice: result1 == nil && !(vwp.Value.Kind() == reflect.Ptr && vwp.Value.IsNil()) && res1(getParentFieldType(vwp)) == "" &&
+//@        typeis(vwp.Value.Interface(), "*history.History") && cast(vwp.Value.Interface(), "*history.History") != nil ==> result0 == visit.Skip
